@@ -230,13 +230,17 @@ class FillModel:
     def _min_len(self, cond: ast.AST, sub: ast.AST) -> Optional[int]:
         """Smallest buffer length for which evaluation reaches `sub` inside a
         left-to-right conjunction; None if no length guard precedes it."""
-        if not isinstance(cond, ast.BoolOp) or not isinstance(cond.op, ast.And):
+        while isinstance(cond, ast.UnaryOp) and isinstance(cond.op, ast.Not):
+            cond = cond.operand
+        if not isinstance(cond, ast.BoolOp):
             return None
+        conj = isinstance(cond.op, ast.And)
         mn = None
         for v in cond.values:
             if any(y is sub for y in walk_local(v)):
                 return mn
-            g = _len_guard(v, self)
+            # `a and X`: X is evaluated when a holds; `a or X`: when a does not hold
+            g = _len_guard(v, self) if conj else _len_guard(ast.UnaryOp(op=ast.Not(), operand=v), self)
             if g is not None:
                 mn = g if mn is None else max(mn, g)
         return mn
@@ -244,9 +248,18 @@ class FillModel:
 
 def _len_guard(e: ast.AST, fm: FillModel) -> Optional[int]:
     """len(buf) > c  ->  c+1 ; len(buf) >= c -> c ; c < len(buf) ..."""
+    neg = False
+    while isinstance(e, ast.UnaryOp) and isinstance(e.op, ast.Not):
+        e = e.operand
+        neg = not neg
     if not (isinstance(e, ast.Compare) and len(e.ops) == 1):
         return None
     l, op, r = e.left, e.ops[0], e.comparators[0]
+    if neg:
+        inv = {ast.Lt: ast.GtE, ast.LtE: ast.Gt, ast.Gt: ast.LtE, ast.GtE: ast.Lt, ast.Eq: ast.NotEq, ast.NotEq: ast.Eq}
+        if type(op) not in inv:
+            return None
+        op = inv[type(op)]()
 
     def is_len(x):
         return isinstance(x, ast.Call) and isinstance(x.func, ast.Name) and x.func.id == "len" and x.args and (attr_chain(x.args[0]) is not None) and fm._is_buf(attr_chain(x.args[0]))
